@@ -839,9 +839,9 @@ _KEEP_T = {
     'C07': r'^(?!c07_(or|xor)_(1_2|2_1)_)',
     'C08': r'^(?!c08_(or_2_1|xor_1_2)_)',
     'C09': r'^(?!c09_views_\w+_3_dm1$)',
-    'C10': r'_d(3|5|8|16|17|28)$|^c10_ringends_[ns]_(d26_k67108800|d29_k536870848|d29_k402653184)$',
+    'C10': r'_d3$|^c10_\w+_eqr_d(5|8|16|17|28)$|^c10_ringends_[ns]_(d26_k67108800|d29_k536870848|d29_k402653184)$',
     'C11': r'^c11_(center|order)_n(4|5|7|8|13|536870911|536870912)$|^c11_point_\w+_n(3|5)_q\d$|^c11_point_eqr_n2$',
-    'C14': r'^c14_(internal|parts|dirs)_|^c14_(external|struct)_d0_dd1$|^c14_guard_0$',
+    'C14': r'^c14_(internal|parts|dirs)_|^c14_external_d0_dd1$',
     'C15': r'^(?!c15_fixed_)|^c15_fixed_(d1_cap2_m2)$',
     'C16': r'.',
     'C17': r'.',
@@ -853,3 +853,6 @@ for _pid, _p in PROPS.items():
     for _h in _p['harnesses']:
         if _h['tiers'] == T and not _rx.search(_h['name']):
             _h['tiers'] = X
+        # a thorough-only harness gets at most 40 min (beyond that it is reported UNDECIDED); longer caps only in tier extended
+        if _h['tiers'] == T and _h['timeout'] > 2400:
+            _h['timeout'] = 2400
